@@ -15,4 +15,7 @@ def run(ctx):
     dbcommon.run_db(ctx, "tranpairs", 60 if ctx.thorough() else 6, "C01p")
     # (b) free-running concurrent clients against the real checker/merger/persist goroutines
     dbcommon.run_db(ctx, "tran", 24 if ctx.thorough() else 2, "C01c")
+    # (c) the same with exclusive schema operations (index builds on the populated table,
+    #     window held open) running against the writers
+    dbcommon.run_db(ctx, "admin", 12 if ctx.thorough() else 1, "C01a")
     ctx.assumptions += dbcommon.ASSUME
